@@ -624,6 +624,29 @@ def _trunc_if_int(a, n):
     return N(z3.If(a.intdtype, tr, r), n.t)
 
 
+def same_mask(m1, m2):
+    """Two boolean arrays are the same mask: the same object, or built elementwise from the same terms (syntactic equality of
+    the element term at symbolic indices and of the shapes) - e.g. the expression `np.isinf(b)` written twice."""
+    if m1 is m2:
+        return True
+    try:
+        if m1.ndim != m2.ndim or m1.dtype != "bool" or m2.dtype != "bool":
+            return False
+        if not all(z3.simplify(x).eq(z3.simplify(y)) for x, y in zip(m1.shape, m2.shape)):
+            return False
+        c = ctx()
+        idx = [z3.Int("smk!%d" % d) for d in range(m1.ndim)]
+        nf = len(c.facts)
+        saved, c.binders = c.binders, [idx]
+        try:
+            e1, e2 = m1.elem(*idx), m2.elem(*idx)
+        finally:
+            c.binders = saved
+        return z3.simplify(e1).eq(z3.simplify(e2))
+    except Exception:
+        return False
+
+
 def store(eng, a, sl, v, st, node):
     """Functional update for a[sl] = v.  Returns new Arr or None."""
     parts = list(sl.elts) if isinstance(sl, ast.Tuple) else [sl]
@@ -660,11 +683,11 @@ def store(eng, a, sl, v, st, node):
             return Arr(a.ndim, a.shape, lambda *i: _ite(m.elem(*i), _trunc_if_int(a, rhs), a.elem(*i), a.dtype), a.dtype, intdtype=a.intdtype)
         # aligned masked update: rhs = f(x[m], y[m], ...) built from the same mask -> elementwise
         al = getattr(va, "aligned", None)
-        if al is not None and al[0] is m:
+        if al is not None and same_mask(al[0], m):
             g = al[1]
             return Arr(a.ndim, a.shape, lambda *i: _ite(m.elem(*i), _trunc_if_int(a, g(*i)), a.elem(*i), a.dtype), a.dtype, intdtype=a.intdtype)
         fs = getattr(va, "fsel", None)
-        if fs is not None and fs[0] is m:
+        if fs is not None and same_mask(fs[0], m):
             return Arr(a.ndim, a.shape, lambda *i: _ite(m.elem(*i), _trunc_if_int(a, getattr(va, "src").elem(*i)), a.elem(*i), a.dtype), a.dtype, intdtype=a.intdtype)
         # unknown alignment: masked elements become unknown
         u = arr_fresh(ctx().fresh("mstore"), a.ndim, a.shape, a.dtype)
@@ -809,10 +832,23 @@ def np_isinf(eng, st, args, kw, node):
     return lift1(n_isinf, args[0], "bool")
 
 
+def invert_mask(a):
+    """~a for a boolean array; the same array object always yields the same complement object (so that X[~m], Y[~m]
+    select through one mask and stay row-aligned)."""
+    r = getattr(a, "_not", None)
+    if r is None:
+        r = arr_map1(lambda x: z3.Not(x), a, "bool")
+        try:
+            a._not = r
+        except Exception:
+            pass
+    return r
+
+
 def np_invert(eng, st, args, kw, node):
     a = as_arr_or_none(args[0])
     if a is not None and a.dtype == "bool":
-        return Val.of_arr(arr_map1(lambda x: z3.Not(x), a, "bool"))
+        return Val.of_arr(invert_mask(a))
     return Val.of_bool(z3.Not(args[0].get_bool()))
 
 
@@ -1235,6 +1271,31 @@ def np_min(eng, st, args, kw, node, is_min=True):
             return Val.of_num(r)
         return opaque("min")
     ax = _axis(kw, args, 1)
+    if ax == 0 and a.ndim == 2 and a.dtype == "num":
+        # column-wise min / max: a witness row per column (T3); NaN-free semantics (a NaN entry makes the value unknown)
+        c = ctx()
+        nm = c.fresh("colmin" if is_min else "colmax")
+        w = c.uf(nm, z3.IntSort(), z3.IntSort())
+        rows_ = a.shape[0]
+
+        done_ = []
+
+        def elc(j):
+            if not done_:
+                done_.append(1)
+                i, jj = z3.Int(nm + "!i"), z3.Int(nm + "!j")
+                saved, c.binders = c.binders, [[i, jj]]
+                try:
+                    cmp_ = n_le(a.elem(w(jj), jj), a.elem(i, jj)) if is_min else n_le(a.elem(i, jj), a.elem(w(jj), jj))
+                finally:
+                    c.binders = saved
+                saved, c.binders = c.binders, []
+                c.add_fact(z3.ForAll([jj], z3.Implies(rows_ >= 1, z3.And(w(jj) >= 0, w(jj) < rows_)), patterns=[w(jj)]), defines=[nm])
+                c.add_fact(z3.ForAll([i, jj], z3.Implies(z3.And(i >= 0, i < rows_), cmp_)), defines=[nm])
+                c.binders = saved
+            return a.elem(w(j), j)
+
+        return Val.of_arr(Arr(1, (a.shape[1],), elc, "num"))
     if ax is not None and a.ndim == 2:
         ctx().note("opaque-expr", eng.where(node), "axis reduction")
         return opaque("minax")
